@@ -14,9 +14,11 @@ const FIELDS: [&str; 5] = ["fst", "snd", "run", "Scalar", "core"];
 const CTORS: [&str; 5] = ["+Nil", "+Cons", "+Some", "+True", "+K1"];
 const DTORS: [&str; 5] = [".run", ".bind", ".return", ".head", ".d1"];
 const LITS: [&str; 10] = ["0", "42", "-7", "1.5", "\"hi\"", "\"a b\\n\"", "'c'", "\"\"", "100000", "-0.25"];
-const METAS: [&str; 8] = [
+const METAS: [&str; 13] = [
     "inline", "doc(\"text\")", "import(\"x.zy\")", "builtin(foo_bar)", "monadic", "debug(\"m\", 3)",
     "format(indent(4))", "intrinsic(unit)",
+    // directives nested anywhere in a program
+    "format(width(12))", "format(parentheses(preserve))", "format(layout(ignore))", "format(verbatim)", "format(width(30), indent(1), parentheses(minimal))",
 ];
 
 impl<'r> SurfGen<'r> {
